@@ -1230,6 +1230,11 @@ class Engine:
         for x, y in ((a, b), (b, a)):
             if isinstance(x, VRec) and 'is_false' in x.fields and ((isinstance(y, VBool) and z3.is_false(z3.simplify(y.t))) or (isinstance(y, VConst) and y.py is False)):
                 return x.fields['is_false'].t
+        if isinstance(a, VRec) and isinstance(b, VRec) and a.name == b.name:
+            # records that carry a ghost identity field (aid / iid / sid / fid / hid / cid / oid): `x is y` compares the identities
+            for idf in ('aid', 'iid', 'sid', 'fid', 'hid', 'cid'):
+                if idf in a.fields:
+                    return a.fields[idf].t == b.fields[idf].t
         if isinstance(a, VConst) and isinstance(b, VConst):
             return z3.BoolVal(a.py == b.py)
         if isinstance(a, VBool) and isinstance(b, VBool):
